@@ -199,6 +199,8 @@ pub fn run(ctx: &mut Ctx) {
     });
     ctx.require(&r, &["negative_interval", "non_negative_interval"]);
     // hidden state: every ordered pair of operation calls on a fresh thread against the lone call (no model involved)
-    let hist_calls = crate::histpairs::calls_ops(false, &|op| { use crate::optable::Op::*; op.sig().0 == 1 || matches!(op, IToTime | ISubTime) });
+    let hist_calls = crate::histpairs::calls_ops(true, &|op| { use crate::optable::Op::*; op.sig().0 == 1 || matches!(op, IToTime | ISubTime) });
     crate::histpairs::pairwise(ctx, "C12", "time_of_day_arithmetic", hist_calls);
+    let hist_calls_full = crate::histpairs::calls_ops(false, &|op| { use crate::optable::Op::*; op.sig().0 == 1 || matches!(op, IToTime | ISubTime) });
+    crate::histpairs::pairwise_same_thread(ctx, "C12", "time_of_day_arithmetic", hist_calls_full);
 }
